@@ -1,6 +1,7 @@
 import Ptk.Proto
 import Ptk.Model.C06Full
 import Ptk.Model.C06Vt
+import Ptk.Model.C06Tr
 open Ptk Ptk.Py Ptk.Proto Ptk.C06
 
 /-! Line-protocol driver for the C06 model (screen differ + renderer state + terminal model).
@@ -27,6 +28,11 @@ structure DS where
   bterm : BTerm := ⟨Term.fresh 1 1 0 (fun _ _ => TCell.blank), Sgr.dflt, .ground⟩
   /-- the bytes written by the last operation -/
   bytes : Text := []
+  /-- sessions whose style transformation is a real object graph: the hashes seen so far (the position in this list
+      is the `tk` key of the renderer model), and what the leaf objects compute: `(leaf, attrs in) ↦ attrs out` -/
+  trMode : Bool := false
+  hashes : List TrHash := []
+  leafTab : List (Nat × Attrs × Attrs) := []
 
 def lookupT : List (Nat × Nat × Nat × Attrs) → Nat → Nat → Nat → Attrs
   | [], _, _, _ => Attrs.dflt
@@ -34,7 +40,45 @@ def lookupT : List (Nat × Nat × Nat × Attrs) → Nat → Nat → Nat → Attr
 
 /-- what a terminal displays for `set_attributes` is what the escape-code encoder and the SGR interpretation
     make of it (`vtEnc`) -/
-def DS.world (d : DS) : World := ⟨lookupT d.table, vtEnc⟩
+def lookupLeaf : List (Nat × Attrs × Attrs) → Nat → Attrs → Attrs
+  | [], _, a => a
+  | (i, x, y) :: rest, j, a => if i = j ∧ x = a then y else lookupLeaf rest j a
+
+def DS.world (d : DS) : World :=
+  if d.trMode then
+    ⟨fun sk tk s => match d.hashes[tk]? with
+        | some h => h.apply (lookupLeaf d.leafTab) (lookupT d.table sk 0 s)
+        | none => lookupT d.table sk 0 s, vtEnc⟩
+  else ⟨lookupT d.table, vtEnc⟩
+
+/-- the evaluated transformation term: `D` | `L i` | `C b t` | `YN` | `Y t` | `M n t₁ … tₙ` -/
+partial def parseTr : List String → Option (Tr × List String)
+  | "D" :: rest => some (.dummy, rest)
+  | "L" :: i :: rest => (decNat i).map fun i => (.leaf i, rest)
+  | "C" :: b :: rest => do
+    let b ← decBool b
+    let (t, rest) ← parseTr rest
+    pure (.cond b t, rest)
+  | "YN" :: rest => some (.dynNone, rest)
+  | "Y" :: rest => do
+    let (t, rest) ← parseTr rest
+    pure (.dyn t, rest)
+  | "M" :: n :: rest => do
+    let n ← decNat n
+    let rec go : Nat → List String → Option (List Tr × List String)
+      | 0, rest => some ([], rest)
+      | k + 1, rest => do
+        let (t, rest) ← parseTr rest
+        let (ts, rest) ← go k rest
+        pure (t :: ts, rest)
+    let (ts, rest) ← go n rest
+    pure (ts.foldr Tr.mcons Tr.mnil, rest)
+  | _ => none
+
+def indexOfHash (h : TrHash) : List TrHash → Nat → Option Nat
+  | [], _ => none
+  | x :: rest, i => if x = h then some i else indexOfHash h rest (i + 1)
+
 def DS.w (d : DS) : Nat := d.st.app.w
 def DS.h (d : DS) : Nat := d.st.app.h
 /-- the environment of a direct differ call (style sheet 0, transformation 0) -/
@@ -184,6 +228,21 @@ def step (d : DS) (toks : List String) : DS × String :=
     match decNat k with
     | some k => ({ d with st := (stepF d.world d.fs d.st (.setStyle k)).1 }, "ok")
     | none => bad
+  | ["leaf", i, fg, bg, fl, fg2, bg2, fl2] =>
+    match decNat i, decAttrs fg bg fl, decAttrs fg2 bg2 fl2 with
+    | some i, some a, some b => ({ d with trMode := true, leafTab := d.leafTab ++ [(i, a, b)] }, "ok")
+    | _, _, _ => bad
+  | "settr" :: term =>
+    -- the transformation object graph is now in this state: its hash, as the code computes it, is the key
+    match parseTr term with
+    | some (t, []) =>
+      let h := t.hash
+      let (hs, idx) := match indexOfHash h d.hashes 0 with
+        | some i => (d.hashes, i)
+        | none => (d.hashes ++ [h], d.hashes.length)
+      let d1 := { d with trMode := true, hashes := hs }
+      ({ d1 with st := (stepF d1.world d1.fs d1.st (.setTrans idx)).1 }, s!"tk={idx}")
+    | _ => bad
   | ["settrans", k] =>
     match decNat k with
     | some k => ({ d with st := (stepF d.world d.fs d.st (.setTrans k)).1 }, "ok")
@@ -282,6 +341,16 @@ def step (d : DS) (toks : List String) : DS × String :=
       ({ d with term := keep d.term, bterm := { d.bterm with t := keep d.bterm.t } }, "ok")
     | none => bad
   | ["rebase"] => ({ d with term := d.term.rebase }, "ok")
+  | ["foreign", k] =>
+    -- other output (run_in_terminal, the next prompt's predecessor …) prints `k` lines: the cursor moves down,
+    -- the renderer's origin is now that row
+    match decNat k with
+    | some k =>
+      let lines := repeatText crlf k
+      let t1 := (exec d.cw d.term [.write lines]).rebase
+      let b1 := interp d.cw d.bterm lines
+      ({ d with term := t1, bterm := { b1 with t := b1.t.rebase } }, "ok")
+    | none => bad
   | ["grid"] => (d, encGrid d.term)
   | ["bgrid"] => (d, encPState d.bterm.ps ++ " " ++ encGrid d.bterm.t)
   | ["bytes"] => (d, encStr d.bytes)
